@@ -101,7 +101,7 @@ def check_refine(case, ctx):
 # ------------------------------------------------------------------------------------------------ helper level
 @st.composite
 def _helper_cases(draw, tier):
-    d = draw(gen.spline(ranges=("far",), kinds=("curve",), max_p=5 if tier == "thorough" else 4, max_extra=6, affine_range="maybe",
+    d = draw(gen.spline(kinds=("curve",), max_p=5 if tier == "thorough" else 4, max_extra=6, affine_range="maybe",
                         normalize=False))
     mode = draw(st.sampled_from(["default", "list", "list", "add", "list+add"]))
     where = draw(st.sampled_from(["any", "any", "first-span", "last-span"]))
